@@ -22,6 +22,10 @@ def run(chk, tier):
                         "this is a bounded-corpus argument over expansions, not a proof about derive/src/lib.rs itself"]
     fx, shapes = corpus.build(tier)
     prog = model.Program(fx, "corpus")
+    fnt = corpus.field_constants(prog)
+    chk.anchor("corpus field-type constants", len(fnt) == len(corpus.FT),
+               "(const-evaluated NEEDS_TRACE of %d of %d field types)" % (len(fnt), len(corpus.FT)))
+    chk.extra["field_type_constants"] = fnt
     impls = {}
     nodrop = set()
     for im in prog.impls:
@@ -92,8 +96,9 @@ def run(chk, tier):
             if not generic:
                 if "value" not in cinfo:
                     probs.append("NEEDS_TRACE could not be const-evaluated")
-                elif bool(cinfo["value"]) != s.expected_needs_trace():
-                    probs.append("NEEDS_TRACE = %s, the shape's traced field types give %s" % (bool(cinfo["value"]), s.expected_needs_trace()))
+                elif bool(cinfo["value"]) != s.expected_needs_trace(fnt):
+                    probs.append("NEEDS_TRACE = %s, the disjunction of the traced field types' own constants is %s" % (
+                        bool(cinfo["value"]), s.expected_needs_trace(fnt)))
             else:
                 keys = [k for k in prog.seed_n.get(norm(nt["path"]), []) if prog.bodies[k]["def"] == nt["path"]]
                 try:
@@ -103,7 +108,7 @@ def run(chk, tier):
                     probs.append("NEEDS_TRACE could not be analysed: %s" % e)
                 params = [c for (_, _, fs) in s.variants for (c, rs) in fs if not rs and re.search(r"\b[TU]\b", c) and c not in corpus.FT]
                 pnames = sorted({m for c in params for m in re.findall(r"\b([TU])\b", c)})
-                concrete_true = any(corpus.FT[c][1] for (_, _, fs) in s.variants for (c, rs) in fs if c in corpus.FT and not rs)
+                concrete_true = any(fnt.get(c, corpus.FT[c][1]) for (_, _, fs) in s.variants for (c, rs) in fs if c in corpus.FT and not rs)
                 for asg, res in outs:
                     falses = set()
                     for k, v in asg.items():
@@ -133,7 +138,7 @@ def run(chk, tier):
             probs.append("__MustNotImplDrop emitted for mode %s" % s.mode)
         chk.inst("derive-expansion", key, not probs, detail="; ".join(sorted(set(probs))[:3]),
                  sample={"shape": s.render(), "expected_traced": {str(k): sorted(v) for k, v in want.items()},
-                         "expected_needs_trace": s.expected_needs_trace()} if n in (3, 60, 150) else None)
+                         "expected_needs_trace": s.expected_needs_trace(fnt)} if n in (3, 60, 150) else None)
     chk.floor("shapes", n, 100 if tier == "quick" else 250)
     chk.extra["shapes"] = n
     # blanket impl of __MustNotImplDrop for all T: Drop in the crate itself
